@@ -54,6 +54,12 @@ LIB_CLASSES = ['KeyError', 'CancelledError', 'RuntimeError', 'TimeoutError', 'In
                'AttributeError', 'TypeError', 'ValueError']
 
 
+# key id -> actual argument of the cached function.  hash(-1) == hash(-2) == -2 in CPython, so the two
+# keys used by the generators are DISTINCT arguments whose hashes (and the hashes of the argument
+# tuples built from them) collide: a cache that keys on the hash mixes them up.
+KEY_ARG = {0: -1, 1: -2}
+
+
 class HarnessExc(Exception):
     def __init__(self, inv):
         super().__init__(inv)
@@ -215,7 +221,7 @@ def _thread_body(R, ti, fn):
 
         async def caller(cid, key):
             try:
-                v = await fn(key)
+                v = await fn(KEY_ARG.get(key, key))
             except HarnessExc as e:
                 R.log('done', cid, 1, e.inv, R.tick())
             except asyncio.CancelledError:
